@@ -66,13 +66,18 @@ def upd {α : Type} (f : Nat → α) (k : Nat) (v : α) : Nat → α := fun x =>
   gvals : Nat → GVals
   /-- `Data.label` (as a token) of every dataset ever created. -/
   dlabel : Nat → Nat
+  /-- `CommandStack._command_stack`, most recent first: `(true, d)` = `AddData(d)`,
+  `(false, d)` = `RemoveData(d)`. -/
+  done : List (Bool × Nat)
+  /-- `CommandStack._undo_stack`, most recent first. -/
+  undone : List (Bool × Nat)
 
 /-- A fresh `DataCollection()` next to `n` fresh datasets labelled `0 … n-1` (not yet appended). -/
 def init (n colors : Nat) : State :=
   { nData := n, nGroup := 0, nSub := 0, sgCount := 0, nColors := colors,
     datasets := [], groups := [], subs := [],
     dsubs := fun _ => [], gsubs := fun _ => [],
-    gvals := fun _ => ⟨.auto 0, .auto 0, .auto 0⟩, dlabel := fun d => d }
+    gvals := fun _ => ⟨.auto 0, .auto 0, .auto 0⟩, dlabel := fun d => d, done := [], undone := [] }
 
 inductive Op where
   | append (d : Nat)
@@ -87,6 +92,10 @@ inductive Op where
   | merge (ds : List Nat)
   | setItem (key d : Nat)
   | restore
+  /-- `command_stack.do(AddData(d))` (`add = true`) / `command_stack.do(RemoveData(d))`. -/
+  | doCmd (add : Bool) (d : Nat)
+  | undo
+  | redo
   deriving DecidableEq, Repr
 
 /-! ## Handlers -/
@@ -205,7 +214,8 @@ saved groups, in order; `_sg_count` is restored.  Datasets outside the collectio
 the session, and a `Data` object of the old session cannot be moved to the new hub (`Data has
 already been assigned to a different hub`): in the restored world a fresh `Data` object (no
 subsets) with the same label stands for each of them.  Removed groups of the old session are not
-part of the new one either; their old objects are left untouched. -/
+part of the new one either; their old objects are left untouched.  The restored session has a
+fresh, empty command stack. -/
 def restore (st : State) : State :=
   let owner (s : Sub) : Option Nat := st.datasets.find? (fun d => (st.dsubs d).contains s)
   { st with
@@ -213,7 +223,38 @@ def restore (st : State) : State :=
                       else [],
     gsubs := fun g => if g ∈ st.groups then (st.gsubs g).map (fun s => { s with data := owner s })
                       else st.gsubs g,
-    subs := st.groups }
+    subs := st.groups, done := [], undone := [] }
+
+/-! ## Undo / redo of the collection-level commands (`glue/core/command.py`)
+
+`AddData.do = append`, `AddData.undo = remove`, `RemoveData.do = remove`, `RemoveData.undo = append`;
+`CommandStack.do` pushes, runs, truncates to `MAX_UNDO = 50` and clears the redo stack; `undo` /
+`redo` move the top command between the two stacks (`IndexError` on an empty stack: state
+unchanged).  The other commands (`ApplySubsetState`, `ApplyROI`, …) belong to C13. -/
+
+def maxUndo : Nat := 50
+
+def cmdDo (fixed : Bool) (c : Bool × Nat) (st : State) : State :=
+  if c.1 then appendOne c.2 st else removeOne fixed c.2 st
+
+def cmdUndo (fixed : Bool) (c : Bool × Nat) (st : State) : State :=
+  if c.1 then removeOne fixed c.2 st else appendOne c.2 st
+
+def doCmd (fixed : Bool) (c : Bool × Nat) (st : State) : State :=
+  let st1 := cmdDo fixed c { st with done := c :: st.done }
+  { st1 with done := st1.done.take maxUndo, undone := [] }
+
+def undoCmd (fixed : Bool) (st : State) : State :=
+  match st.done with
+  | [] => st
+  | c :: rest => cmdUndo fixed c { st with done := rest, undone := c :: st.undone }
+
+def redoCmd (fixed : Bool) (st : State) : State :=
+  match st.undone with
+  | [] => st
+  | c :: rest =>
+    let st1 := cmdDo fixed c { st with undone := rest }
+    { st1 with done := c :: st1.done }
 
 def step (fixed : Bool) (st : State) : Op → State
   | .append d => appendOne d st
@@ -228,6 +269,9 @@ def step (fixed : Bool) (st : State) : Op → State
   | .merge ds => merge fixed ds st
   | .setItem key d => setItem fixed key d st
   | .restore => restore st
+  | .doCmd add d => doCmd fixed (add, d) st
+  | .undo => undoCmd fixed st
+  | .redo => redoCmd fixed st
 
 def run (fixed : Bool) (st : State) (ops : List Op) : State := ops.foldl (step fixed) st
 
